@@ -2,7 +2,7 @@
 """regenerates MANIFEST.json from checks/*.py (CLAIMS below); run after adding a check"""
 import json, os
 CLAIMS = {
- "C01": ("symbolic execution of the real assembler vs. a reference MSP430 encoder over symbolic operands and engine-enumerated forms, plus the symbolic-bytes disasm/asm fixpoint harness; Z3 decides byte equality", "1 (C01)"),
+ "C01": ("symbolic execution of the real assembler vs. reference MSP430 and RV32I encoders (written from the manuals) over symbolic operands/registers and engine-enumerated forms, plus the symbolic-bytes and assembler-side disasm/asm fixpoint harnesses; Z3 decides byte equality", "1 (C01)"),
  "C02": ("symbolic execution of the real two-pass assembler on variable-length instruction forms with symbolic backward/forward operand values; Z3 decides pass-1 label == pass-2 placement", "1 (C02)"),
  "C03": ("symbolic execution of the real file writers/readers on images with symbolic bytes vs. independent format decoders; Z3 decides content/checksum assertions", "1 (C03)"),
  "C04": ("symbolic execution of EvalExpression/Operator/Var (LLVM IR) vs. reference evaluator; Z3 decides every path", "1 (C04)"),
@@ -13,10 +13,10 @@ CLAIMS = {
  "C10": ("symbolic execution of the real conditional-assembly code on templates with symbolic condition operands/operators vs. reference evaluator; Z3 decides branch selection", "1 (C10)"),
  "C11": ("symbolic execution of the real Symbols class on all bounded operation sequences vs. scoping model, plus two-pass templates; Z3 decides value assertions", "1 (C11)"),
  "C12": ("symbolic execution of naken_asm's real main() on the in-memory file system over solver-enumerated single-character corruptions; Z3 decides status/diagnostic/file agreement", "1 (C12)"),
- "C13": ("self-composition: naken_asm's real main() executed twice symbolically with different reporting options on solver-enumerated sources; Z3 decides status/output equality", "1 (C13)"),
+ "C13": ("self-composition: naken_asm's real main() executed twice symbolically with different reporting options on solver-enumerated sources; symbolic number of preceding lines across output types; uninitialised-storage taint on perturbed instruction forms of 66 CPUs; Z3 decides status/output equality and concreteness of emitted bytes", "1 (C13)"),
  "C14": ("differential symbolic execution: SimulateMsp430::run(step) vs. a reference step from the user's guide over symbolic registers/opcode/memory; Z3 decides state equality", "1 (C14)"),
  "C15": ("symbolic execution of one run(step) of each simulator class from a fully symbolic register/flag/memory state, with self-composition for determinism; Z3 decides bounds/div/return assertions", "1 (C15)"),
- "C16": ("symbolic execution of naken_asm's real main() on generated hostile sources with engine-chosen lengths/depths; every memory access bounds-checked, call depth and steps bounded", "1 (C16)"),
+ "C16": ("symbolic execution of naken_asm's real main() on generated hostile sources with engine-chosen lengths/depths, and of the two-pass assembler on every instruction form with a symbolic 32-bit operand; every memory access bounds-checked, call depth and steps bounded", "1 (C16)"),
  "C17": ("symbolic execution of the real object-file readers on skeleton files with symbolic header fields/characters; every access bounds-checked, loops bounded by the step budget", "1 (C17)"),
  "C18": ("symbolic execution of naken_asm's real main() with -l on programs with symbolic bytes/operands; listing parsed with branch-free arithmetic; Z3 decides listed byte == output byte and coverage", "1 (C18)"),
  "C19": ("symbolic execution of the real naken_util memory commands (write*/print*, address and number parsers, Memory) with symbolic values and engine-enumerated addresses/spellings; Z3 decides read-back equality and frame conditions", "1 (C19)"),
